@@ -42,6 +42,48 @@ STRATEGIES_THOROUGH = STRATEGIES_QUICK + [
 ]
 
 
+def _child(fn, arg, conn):
+    try:
+        conn.send(("ok", fn(arg)))
+    except BaseException as e:  # noqa: BLE001 - reported to the parent as a harness error
+        conn.send(("err", "%r\n%s" % (e, traceback.format_exc()[-1500:])))
+    finally:
+        conn.close()
+
+
+def run_procs(fn, arglist, timeout):
+    """one fresh forked process per task (a process's pendulum backend is fixed at import)."""
+    ctx = mp.get_context("fork")
+    procs = []
+    for arg in arglist:
+        if arg is None:
+            procs.append(None)
+            continue
+        parent, child = ctx.Pipe(duplex=False)
+        p = ctx.Process(target=_child, args=(fn, arg, child), daemon=True)
+        p.start()
+        child.close()
+        procs.append((p, parent))
+    out = []
+    deadline = time.perf_counter() + timeout
+    for item in procs:
+        if item is None:
+            out.append(("skip", None))
+            continue
+        p, conn = item
+        try:
+            if conn.poll(max(0.0, deadline - time.perf_counter())):
+                out.append(conn.recv())
+            else:
+                out.append(("err", "timeout after %.0fs" % timeout))
+        except (EOFError, OSError) as e:
+            out.append(("err", "worker died: %r" % (e,)))
+        p.join(5)
+        if p.is_alive():
+            p.kill()
+    return out
+
+
 def load_prop(pid):
     return importlib.import_module("props.%s" % pid.lower())
 
@@ -87,6 +129,8 @@ class Agg:
         self.clock_positions = set()
         self.labels = collections.Counter()
         self.known = {}
+        self.solo = {}
+        self.backend = None
 
     def to_wire(self):
         return {
@@ -97,14 +141,38 @@ class Agg:
             "clock_set": list(self.clock_positions)[:200000],
             "labels": dict(self.labels),
             "known": self.known,
+            "solo": self.solo,
+            "backend": self.backend,
         }
 
 
+def select_backend(backend, ext_path):
+    """must run before pendulum is imported in this process."""
+    if backend is None:
+        return
+    if "pendulum" in sys.modules:
+        import pendulum.helpers as h
+
+        have = "ext" if h.precise_diff.__module__ == "pendulum._pendulum" else "py"
+        if have != backend:
+            raise RuntimeError("backend %s requested but pendulum already imported with %s" % (backend, have))
+        return
+    if backend == "py":
+        os.environ["PENDULUM_EXTENSIONS"] = "0"
+    else:
+        os.environ["PENDULUM_EXTENSIONS"] = "1"
+        if ext_path and not ext_path.startswith("/repo/"):
+            from tools import build_ext
+
+            build_ext.inject(ext_path)
+
+
 def _worker(args):
-    pid, tier, seed, widx, nworkers, budget, max_runs, hashseed = args
+    pid, tier, seed, widx, nworkers, budget, max_runs, hashseed, backend, ext_path, start, stride = args
     sys.path.insert(0, ROOT)
     faulthandler.enable()
     faulthandler.dump_traceback_later(budget * 3 + 120, exit=True)
+    select_backend(backend, ext_path)
     from sim import engine
     from sim.sched import HarnessError
     from sim.world import get_world
@@ -114,8 +182,13 @@ def _worker(args):
     agg = Agg()
     known = load_known()
     t0 = time.perf_counter()
-    idx = widx
+    idx = start
+    nworkers = stride
     seen_sigs = set()
+    cross = bool(getattr(prop, "CROSS_BACKEND", False)) and backend is not None
+    import pendulum.helpers as _h
+
+    agg.backend = "ext" if _h.precise_diff.__module__ == "pendulum._pendulum" else "py"
     while idx < max_runs:
         if time.perf_counter() - t0 > budget:
             break
@@ -129,6 +202,9 @@ def _worker(args):
             agg.harness.append({"run": idx, "error": repr(e), "tb": traceback.format_exc()[-1500:]})
             break
         agg.c["runs"] += 1
+        agg.c["backend_" + agg.backend] += 1
+        if cross:
+            agg.solo[idx] = engine.solo_digest(sc)
         agg.c["gran_" + sc["gran"]] += 1
         agg.c["strat_" + sc["strategy"]["kind"]] += 1
         if run.capped:
@@ -190,6 +266,7 @@ def _worker(args):
                 seen_sigs.add(sig)
                 sc2 = dict(sc)
                 sc2["strategy"] = run.explicit
+                sc2["backend"] = agg.backend
                 agg.viols.append({"sig": engine.signature(v), "scenario": sc2, "violation": v})
         idx += nworkers
     agg.c["wall_worker"] = 0
@@ -197,11 +274,49 @@ def _worker(args):
     return agg.to_wire()
 
 
+def _meta_job(pid):
+    sys.path.insert(0, ROOT)
+    prop = load_prop(pid)
+    return {k: getattr(prop, k) for k in ("BUDGET", "RUNS", "CROSS_BACKEND", "USES_EXTENSION") if hasattr(prop, k)}
+
+
+def _solo_idx_job(args):
+    """solo observations of run ``idx`` under one backend (+ the scenario and its XB facts)."""
+    pid, seed, idx, tier, backend, ext_path = args
+    sys.path.insert(0, ROOT)
+    select_backend(backend, ext_path)
+    from sim import engine
+
+    prop = load_prop(pid)
+    sc = make_scenario(prop, seed, idx, tier)
+    sc["strategy"] = {"kind": "none"}
+    obs = engine.solo_obs(sc)
+    return {"obs": obs, "scenario": sc, "has_facts": hasattr(prop, "xb_facts"),
+            "facts": prop.xb_facts(sc, None) if hasattr(prop, "xb_facts") else {}}
+
+
+def _solo_job(args):
+    pid, sc, backend, ext_path = args
+    sys.path.insert(0, ROOT)
+    select_backend(backend, ext_path)
+    from sim import engine
+
+    return engine.solo_obs(sc)
+
+
+def cross_backend_diff(pid, sc, ext_path):
+    (sa, a), (sb, b) = run_procs(_solo_job, [(pid, sc, "ext", ext_path), (pid, sc, "py", ext_path)], timeout=300)
+    if sa != "ok" or sb != "ok":
+        return [{"error": [a, b]}]
+    return [{"op_index": i, "ext": x, "py": y} for i, (x, y) in enumerate(zip(a, b)) if x != y][:4]
+
+
 def _minimize_job(args):
-    pid, item, budget_n = args
+    pid, item, budget_n, ext_path = args
     sys.path.insert(0, ROOT)
     faulthandler.enable()
     faulthandler.dump_traceback_later(900, exit=True)
+    select_backend(item["scenario"].get("backend"), ext_path)
     from sim import minimize as mz
 
     prop = load_prop(pid)
@@ -241,26 +356,45 @@ def match_known(pid, v, known):
 # ----------------------------------------------------------------------------- main
 def run_check(pid, tier, seed, workers=None, budget=None):
     t_start = time.perf_counter()
-    prop = load_prop(pid)
+    # the parent never imports pendulum (a process's helper backend is fixed at import time)
+    st, meta = run_procs(_meta_job, [pid], timeout=120)[0]
+    if st != "ok":
+        print("HARNESS-ERROR: cannot load property module: %s" % (meta,))
+        return EXIT_HARNESS
     cfg = TIERS[tier]
-    budget = float(os.environ.get("VERIF_BUDGET", budget or getattr(prop, "BUDGET", {}).get(tier, cfg["budget"])))
+    budget = float(os.environ.get("VERIF_BUDGET", budget or meta.get("BUDGET", {}).get(tier, cfg["budget"])))
     workers = int(os.environ.get("VERIF_WORKERS", workers or os.cpu_count() or 4))
     # quick tier: a fixed number of runs per seed (same runs whatever the machine load), the wall
     # budget is only a safety cap; thorough tier: as many runs as the wall budget allows
-    max_runs = int(os.environ.get("VERIF_MAX_RUNS", getattr(prop, "RUNS", {}).get(tier, cfg["max_runs"])))
-    if "VERIF_BUDGET" not in os.environ and tier == "quick" and hasattr(prop, "RUNS"):
+    max_runs = int(os.environ.get("VERIF_MAX_RUNS", meta.get("RUNS", {}).get(tier, cfg["max_runs"])))
+    if "VERIF_BUDGET" not in os.environ and tier == "quick" and "RUNS" in meta:
         budget = max(budget, 150.0)
     ctx = mp.get_context("fork")
     wires = []
     harness = []
-    with cf.ProcessPoolExecutor(max_workers=workers, mp_context=ctx) as ex:
-        futs = [ex.submit(_worker, (pid, tier, seed, w, workers, budget, max_runs, os.environ.get("PYTHONHASHSEED")))
-                for w in range(workers)]
-        for f in futs:
-            try:
-                wires.append(f.result(timeout=budget * 3 + 180))
-            except Exception as e:
-                harness.append({"error": "worker died: %r" % (e,)})
+    ext_path, ext_reason = None, "backend not selected by this property"
+    plan = [(None, w, workers) for w in range(workers)]
+    if meta.get("USES_EXTENSION") or meta.get("CROSS_BACKEND"):
+        from tools import build_ext
+
+        ext_path = build_ext.ensure(build=True)
+        ext_reason = build_ext.reason
+        if ext_path and meta.get("CROSS_BACKEND") and workers >= 2:
+            half = workers // 2
+            # workers 2j (compiled) and 2j+1 (pure Python) execute the same run indices
+            plan = [("ext" if w % 2 == 0 else "py", w // 2, half) for w in range(half * 2)]
+        elif ext_path:
+            plan = [("ext", w, workers) for w in range(workers)]
+        else:
+            plan = [("py", w, workers) for w in range(workers)]
+    res = run_procs(_worker, [(pid, tier, seed, w, workers, budget, max_runs, os.environ.get("PYTHONHASHSEED"),
+                               be, ext_path, start, stride) for w, (be, start, stride) in enumerate(plan)],
+                    timeout=budget * 3 + 180)
+    for st, val in res:
+        if st == "ok":
+            wires.append(val)
+        else:
+            harness.append({"error": "worker failed: %s" % (val,)})
     c = collections.Counter()
     sites = collections.Counter()
     labels = collections.Counter()
@@ -283,7 +417,37 @@ def run_check(pid, tier, seed, workers=None, budget=None):
         samples.extend(w["samples"])
         harness.extend(w["harness"])
     search_wall = time.perf_counter() - t_start
-
+    # cross-backend differential: the same run index, executed un-pre-empted by both helper
+    # backends, must give identical observations
+    solo = {}
+    xb_known = {}
+    xb_examined = 0
+    cross_compared = 0
+    for w in wires:
+        for idx, dg in w.get("solo", {}).items():
+            solo.setdefault(int(idx), {})[w["backend"]] = dg
+    for idx, d in sorted(solo.items()):
+        if len(d) == 2:
+            cross_compared += 1
+            if d["ext"][0] != d["py"][0] and xb_examined < 12:
+                xb_examined += 1
+                (sa, ra), (sb, rb) = run_procs(_solo_idx_job, [(pid, seed, idx, tier, "ext", ext_path),
+                                                              (pid, seed, idx, tier, "py", ext_path)], timeout=300)
+                if sa != "ok" or sb != "ok":
+                    harness.append({"error": "cross-backend job failed: %s %s" % (ra, rb)})
+                    continue
+                diff = [{"op_index": i, "ext": x, "py": y} for i, (x, y) in enumerate(zip(ra["obs"], rb["obs"])) if x != y][:4]
+                sc = ra["scenario"]
+                v = {"oracle": "XB", "label": "backend-differential", "op": None, "sim_obs": None,
+                     "detail": {"run": idx, "first_differences(ext,py)": diff}, "facts": ra["facts"]}
+                k = match_known(pid, v, load_known())
+                if k is not None:
+                    kid = k.get("id") or k.get("what", "")[:60]
+                    xb_known.setdefault(kid, {"finding": k, "count": 0, "example": {"origin": sc["origin"], "op": "solo differential", "detail": diff[:1]}})
+                    xb_known[kid]["count"] += 1
+                    continue
+                if len([x for x in viols if x.get("no_minimise")]) < 3:
+                    viols.append({"sig": ["XB", "backend-differential"], "scenario": sc, "no_minimise": True, "violation": v})
     # one representative per signature
     by_sig = {}
     for item in viols:
@@ -292,14 +456,14 @@ def run_check(pid, tier, seed, workers=None, budget=None):
     known = load_known()
     if by_sig:
         items = list(by_sig.values())[:8]
-        with cf.ProcessPoolExecutor(max_workers=min(len(items), workers), mp_context=ctx) as ex:
-            futs = [ex.submit(_minimize_job, (pid, it, 1500 if tier == "quick" else 4000)) for it in items]
-            for it, f in zip(items, futs):
-                try:
-                    res = f.result(timeout=1200)
-                except Exception as e:
-                    harness.append({"error": "minimiser died: %r" % (e,)})
-                    res = None
+        # one fresh process per job: the backend is fixed at import time
+        jobs = run_procs(_minimize_job, [None if it.get("no_minimise") else (pid, it, 1500 if tier == "quick" else 4000, ext_path)
+                                         for it in items], timeout=1200)
+        if True:
+            for it, (st, val) in zip(items, jobs):
+                res = val if st == "ok" else None
+                if st == "err":
+                    harness.append({"error": "minimiser failed: %s" % (val,)})
                 if res is None:
                     # could not be reproduced by the minimiser: report unminimised (still a violation)
                     res = {"scenario": it["scenario"], "violation": it["violation"], "digest": None,
@@ -319,6 +483,11 @@ def run_check(pid, tier, seed, workers=None, budget=None):
                                "minimiser_executions": res["executions"],
                                "unminimised": bool(res.get("unminimised"))}, fh, indent=1, sort_keys=True, default=str)
                 reported.append((path, v))
+    for kid, kv in xb_known.items():
+        if kid in known_seen:
+            known_seen[kid]["count"] += kv["count"]
+        else:
+            known_seen[kid] = kv
     for kid, kv in sorted(known_seen.items()):
         print("KNOWN-FINDING: property=%s %s (seen %d times, e.g. run %s op %s)" % (
             pid, kv["finding"].get("what", ""), kv["count"], kv["example"]["origin"].get("run"),
@@ -386,7 +555,10 @@ def run_check(pid, tier, seed, workers=None, budget=None):
                          "CPython threads (parked/released one at a time)", "dateutil / pytz where an op uses them"],
                 "stub": ["file system and environment seen by pendulum.tz.local_timezone (FakeFS/FakeEnviron)", "nemesis actor"],
             },
-            "backend": getattr(prop, "backend_info", lambda: "n/a")(),
+            "cross_backend_mismatching_runs": sum(1 for d in solo.values() if len(d) == 2 and d["ext"][0] != d["py"][0]),
+            "backends": {"runs": {k[8:]: v for k, v in c.items() if k.startswith("backend_")},
+                         "extension": ext_path, "extension_source": ext_reason,
+                         "cross_backend_runs_compared": cross_compared},
         },
         "assumptions": [
             "pre-emption only at sys.settrace yield points inside src/pendulum; C code (stdlib, zoneinfo, Rust extension) runs atomically",
@@ -399,19 +571,34 @@ def run_check(pid, tier, seed, workers=None, budget=None):
         json.dump(ev, fh, indent=1, sort_keys=True, default=str)
     print("%s %s seed=%d: %d runs (%d/h), %d distinct non-trivial interleavings, %d violations, %d known, %.1fs" % (
         pid, tier, seed, runs, ev["coverage"]["runs_per_hour"], len(distinct), len(reported), len(known_seen) + len(known_hits), wall))
+    if reported:
+        return EXIT_VIOLATION       # a reproduced violation stands even if some worker also failed
     if harness or runs == 0:
         return EXIT_HARNESS
-    if reported:
-        return EXIT_VIOLATION
     return EXIT_OK
 
 
 def replay(path):
     sys.path.insert(0, ROOT)
-    from sim import engine
-
     with open(path) as fh:
         rp = json.load(fh)
+    be = rp["scenario"].get("backend")
+    if be:
+        from tools import build_ext
+
+        select_backend(be, build_ext.ensure(build=True) if be == "ext" else None)
+    from sim import engine
+
+    if rp["signature"][0] == "XB":
+        from tools import build_ext
+
+        diff = cross_backend_diff(rp["property"], rp["scenario"], build_ext.ensure(build=True))
+        if diff:
+            print("VIOLATION property=%s replay=%s" % (rp["property"], path))
+            print("  reproduced: compiled and pure-Python backends disagree: %s" % json.dumps(diff, default=str)[:700])
+            return EXIT_VIOLATION
+        print("replay %s: backends agree on this tree" % path)
+        return EXIT_OK
     prop = load_prop(rp["property"])
     run, viols, _ = engine.decide(rp["scenario"], prop)
     hit = [v for v in viols if engine.signature(v) == rp["signature"]]
